@@ -15,7 +15,7 @@ from vlib import core, srcgen
 
 PID = "C14"
 LEVEL = "exploration"
-TECHNIQUE = "differential testing against tokenize/ast (Hypothesis grammar + statement soup + stdlib corpus), every offset/line/token per text"
+TECHNIQUE = "differential testing against tokenize/ast (Hypothesis grammar + statement soup + stdlib corpus), every offset/line/token per text; coverage-guided stage (atheris driving the same strategy) in the thorough tier"
 RULE = (
     "texts from a concrete-syntax grammar with layout hazards (string prefixes x quotes x escapes, f-strings, comments with "
     "brackets/quotes, backslash continuations, multi-line brackets, semicolons, tabs, unicode identifiers), from stdlib "
@@ -29,6 +29,7 @@ ASSUMPTIONS = [
 ]
 BUDGET = {"quick": (4800, 240), "thorough": (120000, 2700)}
 # thorough tier: rope modules instrumented for the coverage-guided (atheris) stage, see vlib/fuzzworker.py
+FUZZ_SECONDS = 240  # per process, thorough tier only
 FUZZ_MODULES = ["rope.base.codeanalyze", "rope.base.simplify", "rope.base.worder"]
 
 
